@@ -16,6 +16,9 @@ import z3
 from . import libmodels
 from .program import Program, is_disp_test, is_dropped
 from .values import (
+    AliasOf,
+    ObjOf,
+    TupleOf,
     BoundMethod,
     Bool,
     Builtin,
@@ -517,6 +520,7 @@ class Exec:
                     self.prove(s, f"{short(vname)}/ensures/{ename}", goal, "ensures", node.lineno)
                 if FRAME_CHECK and not c.options.get("no_frame_check"):
                     self._check_frame(c, s, vname, node)
+                    self._check_aliases(c, s, vname, node, result)
                 # canary: the end of this path must be reachable ("ensures False" must be refuted)
                 self.obls.append(Obl(f"{short(vname)}/canary", list(s.pc), None, "cover", qual, node.lineno, pathid(s)))
             elif kind == "raise":
@@ -2458,6 +2462,67 @@ class Exec:
                 walk(cur_root[pname], ov, pname)
         goal = z3.And(*goals) if goals else z3.BoolVal(True)
         self.prove(s, f"{short(vname)}/frame/only-declared-locations-change", goal, "frame", node.lineno, extra={"frame_locations": notes[:40]})
+
+    def _check_aliases(self, c, s, vname, node, result):
+        """Alias declarations (AliasOf) in `assigns` and `returns` are what callers are told about a written location or a result field: "it is this
+        argument / this field of self".  When the body is verified they are proved: same object (identity) for heap values, equality for scalars."""
+        root = s.roots.get("params0")
+        if root is None:
+            return
+        P = SpecEnvRaw(root)
+        goals, notes, found = [], [], [False]
+
+        def same(actual, shape, path):
+            if isinstance(shape, AliasOf):
+                found[0] = True
+                try:
+                    want = shape.fn(P)
+                except (KeyError, AttributeError, VCError, TypeError):
+                    return
+                if actual is want:
+                    return
+                if is_scalar(actual) and is_scalar(want) and (is_z3(actual) or is_z3(want)):
+                    a, b = to_z3(actual), to_z3(want)
+                    if a.sort() != b.sort():
+                        if z3.is_bool(a) or z3.is_bool(b):
+                            goals.append(z3.BoolVal(False))
+                            notes.append(f"{path}: not the declared alias (another type)")
+                            return
+                        a, b = to_real(a), to_real(b)
+                    goals.append(a == b)
+                    notes.append(path)
+                elif isinstance(actual, Opaque) and isinstance(want, Opaque) and "id" in actual.attrs and "id" in want.attrs:
+                    goals.append(to_z3(actual.attrs["id"]) == to_z3(want.attrs["id"]))
+                    notes.append(path)
+                elif isinstance(actual, (int, float, Fraction, bool, str, EnumVal)) or actual is None:
+                    if not (type(actual) is type(want) and actual == want):
+                        goals.append(z3.BoolVal(False))
+                        notes.append(f"{path}: holds {actual!r}, declared to be the alias of {want!r}")
+                else:
+                    goals.append(z3.BoolVal(False))
+                    notes.append(f"{path}: is not the object it is declared to alias")
+            elif isinstance(shape, ObjOf) and isinstance(actual, PyObj):
+                for k, sh in shape.fields.items():
+                    if k in actual.fields:
+                        same(actual.fields[k], sh, f"{path}.{k}")
+            elif isinstance(shape, TupleOf) and isinstance(actual, tuple):
+                for k, (a, sh) in enumerate(zip(actual, shape.elems)):
+                    same(a, sh, f"{path}[{k}]")
+
+        for path_fn, shape in c.assigns:
+            if isinstance(shape, Same):
+                continue
+            try:
+                tgt = path_fn(P)
+            except (KeyError, AttributeError, VCError, TypeError):
+                continue
+            if isinstance(tgt, tuple) and isinstance(tgt[0], PyObj) and tgt[1] in tgt[0].fields:
+                same(tgt[0].fields[tgt[1]], shape, f"<assigns>.{tgt[1]}")
+        rs = getattr(c, "returns", None)
+        if rs is not None:
+            same(result, rs, "result")
+        if found[0]:
+            self.prove(s, f"{short(vname)}/frame/declared-aliases-hold", z3.And(*goals) if goals else z3.BoolVal(True), "frame", node.lineno, extra={"frame_locations": notes[:40]})
 
     def _apply_frame(self, c, env, st):
         wf = []
